@@ -17,6 +17,7 @@ import FendModel.Model.UnitLookup
 import FendModel.Model.Units
 import FendModel.Model.NumLit
 import FendModel.Model.Root
+import FendModel.Model.Parser
 
 open Fend Fend.Proto
 
@@ -538,6 +539,27 @@ def rootsLine (line : String) : String :=
     | _, _, _, _ => "bad-op"
   | _ => "bad-op"
 
+/-- tokens `n:<text>` `i:<name>` `s:<symbol name>` separated by spaces -/
+def parseLine (line : String) : String :=
+  let toks := (line.trimAscii.toString.splitOn " ").filter (!·.isEmpty)
+  let tok (t : String) : Option Fend.Parser.Tok :=
+    if t.startsWith "n:" then some (.num (t.drop 2).toString)
+    else if t.startsWith "i:" then some (.ident (t.drop 2).toString)
+    else if t.startsWith "s:" then
+      (match (t.drop 2).toString with
+        | "(" => some Fend.Parser.Sym.openP | ")" => some .closeP | "+" => some .add | "-" => some .sub | "*" => some .mul
+        | "/" => some .div | "mod" => some .mod | "^" => some .pow | "&" => some .bitAnd | "|" => some .bitOr
+        | "xor" => some .bitXor | "<<" => some .shl | ">>" => some .shr | "nCr" => some .comb | "nPr" => some .perm
+        | "!" => some .fact | "to" => some .conv | ":" => some .fn_ | "==" => some .eq2 | "!=" => some .ne
+        | "=" => some .eq | ";" => some .semi | _ => none).map Fend.Parser.Tok.sym
+    else none
+  match toks.mapM tok with
+  | none => "bad-op"
+  | some ts =>
+    match Fend.Parser.parse ts with
+    | some e => "ok " ++ Fend.Parser.fmt e
+    | none => "err"
+
 partial def loop (h : IO.FS.Stream) (out : IO.FS.Stream) (f : String → String) : IO Unit := do
   let line ← h.getLine
   if line.isEmpty then return ()
@@ -565,6 +587,7 @@ def main (args : List String) : IO UInt32 := do
   | ["units"] => loop stdin stdout unitsLine; return 0
   | ["ratfmt"] => loop stdin stdout ratfmtLine; return 0
   | ["roots"] => loop stdin stdout rootsLine; return 0
+  | ["parse"] => loop stdin stdout parseLine; return 0
   | ["numlit"] => loop stdin stdout numlitLine; return 0
   | ["clirun"] => loop stdin stdout clirunLine; return 0
   | _ => IO.eprintln "usage: fend_model_driver <stream>"; return 2
